@@ -141,7 +141,10 @@ class InterpolatedThresholder(MetaEstimatorMixin, BaseEstimator):
             enforce_binary_labels=False,
         )
 
-        positive_probs = 0.0 * base_predictions_vector
+        # the probabilities assigned below are float64: do not inherit a narrower float dtype from the scores
+        positive_probs = (0.0 * base_predictions_vector).astype(
+            np.result_type(base_predictions_vector.dtype, np.float64)
+        )
         for a, interpolation in self.interpolation_dict.items():
             interpolated_predictions = interpolation.p0 * interpolation.operation0(
                 base_predictions_vector
